@@ -303,14 +303,19 @@ def find_magic_mz(fh: BinaryIO, start_offset: int = 0, maxrange: int = 1024) -> 
     Returns:
         MZ header bytes or ``None`` if not found.
     """
-    mz_offset = find_mz_offset(fh, start_offset=start_offset, maxrange=maxrange)
-    if mz_offset is None:
+    found = _find_dos_header(fh, start_offset=start_offset, maxrange=maxrange)
+    if found is None:
         return None
+    mz_offset, machine = found
 
     fh.seek(mz_offset)
     data = fh.read(256)
-    pos = data.find(DOSHEADER_X86)
-    pos = data.find(DOSHEADER_X64) if pos == -1 else pos
+    # the loader stub of the image's own architecture first, the bytes of the other one can occur further on by accident
+    stubs = [DOSHEADER_X86, DOSHEADER_X64]
+    if machine == pestruct.IMAGE_FILE_MACHINE_AMD64:
+        stubs.reverse()
+    pos = data.find(stubs[0])
+    pos = data.find(stubs[1]) if pos == -1 else pos
     if pos >= 0:
         return data[:pos]
     return None
